@@ -606,6 +606,9 @@ func NewSliceFromStrings(str DataShapeString, offsetStr, sizeStr, sep string) (G
 	if err != nil {
 		return nil, err
 	}
+	if size[0] < 0 || size[1] < 0 {
+		return nil, fmt.Errorf("Size %s must not be negative in any dimension", size)
+	}
 	return NewOrthogSlice(shape, offset, size)
 }
 
